@@ -35,5 +35,29 @@ def load(path=PATH):
     return known, fixed
 
 
+class Index:
+    """Findings of one property.  The oracle field of a line may be an fnmatch pattern naming several
+    API forms of the same query (e.g. C02.*interactions*@t); the trigger must match exactly."""
+
+    def __init__(self, items):
+        self.items = list(items)
+        self._cache = {}
+
+    def find(self, sub, trigger):
+        key = (sub, trigger)
+        if key not in self._cache:
+            import fnmatch
+            hit = None
+            for f in self.items:
+                if f.trigger == trigger and (f.oracle == sub or fnmatch.fnmatchcase(sub, f.oracle)):
+                    hit = f
+                    break
+            self._cache[key] = hit
+        return self._cache[key]
+
+    def __contains__(self, key):
+        return self.find(*key) is not None
+
+
 def index(known, prop):
-    return {(f.oracle, f.trigger): f for f in known if f.prop == prop}
+    return Index(f for f in known if f.prop == prop)
